@@ -684,6 +684,17 @@ def r33_groupby_runs(ctx, include=None, rule='R33'):
 
 # ---------------------------------------------------------------------- R34 RUN-IDEMPOTENCE
 
+def _placeholder(e):
+    """what a constructor stores for "nothing yet": None / False / 0 / '' / an empty display or dict() / list() / set()"""
+    if isinstance(e, ast.Constant):
+        return e.value in (None, False, 0, '')
+    if isinstance(e, (ast.List, ast.Tuple, ast.Set)):
+        return not e.elts
+    if isinstance(e, ast.Dict):
+        return not e.keys
+    return isinstance(e, ast.Call) and isinstance(e.func, ast.Name) and e.func.id in ('dict', 'list', 'set') and not e.args and not e.keywords
+
+
 def rerun_state(class_node, base_nodes=()):
     """State of a step object that a run leaves behind for the next run of the same object: attributes the constructor sets
     (self.X = ...) that a method other than __init__ (a) mutates in place without any method re-creating them first, or
@@ -707,7 +718,7 @@ def rerun_state(class_node, base_nodes=()):
     for m in methods:
         for n in ast.walk(m):
             if isinstance(n, ast.Assign):
-                for t in n.targets:
+                for t in [e_ for t_ in n.targets for e_ in (t_.elts if isinstance(t_, (ast.Tuple, ast.List)) else [t_])]:
                     if isinstance(t, ast.Attribute) and isinstance(t.value, ast.Name) and t.value.id == 'self' and t.attr in ctor:
                         reads = {x.attr for x in ast.walk(n.value) if isinstance(x, ast.Attribute) and isinstance(x.value, ast.Name)
                                  and x.value.id == 'self'}
@@ -719,7 +730,7 @@ def rerun_state(class_node, base_nodes=()):
     def rebinds(st, attr):
         if not isinstance(st, ast.Assign):
             return False
-        for t in st.targets:
+        for t in [e_ for t_ in st.targets for e_ in (t_.elts if isinstance(t_, (ast.Tuple, ast.List)) else [t_])]:
             if isinstance(t, ast.Attribute) and isinstance(t.value, ast.Name) and t.value.id == 'self' and t.attr == attr:
                 reads = {x.attr for x in ast.walk(st.value) if isinstance(x, ast.Attribute) and isinstance(x.value, ast.Name)
                          and x.value.id == 'self'}
@@ -733,6 +744,9 @@ def rerun_state(class_node, base_nodes=()):
             return bool(st.orelse) and any(definitely(x, attr) for x in st.body) and any(definitely(x, attr) for x in st.orelse)
         if isinstance(st, (ast.With, ast.AsyncWith)):
             return any(definitely(x, attr) for x in st.body)
+        if isinstance(st, ast.Try):
+            # (a statement of the try body itself: if it does not get there the run has failed)
+            return any(definitely(x, attr) for x in st.body) or any(definitely(x, attr) for x in st.finalbody)
         return False
 
     top_reset = {}
@@ -773,6 +787,15 @@ def rerun_state(class_node, base_nodes=()):
             return True
         return assigned_before(m.body, attr, node)
     out = []
+    # (c) carried over: an attribute a run rebinds is read, in some run, before that run has bound it (and no other method binds it
+    # first thing): the value is the one the previous run left - `if self.dp is None: self.dp = parse(..)`, `elif self.stream is not
+    # None: self.stream.reset()`.  What the constructor stored and nobody rebinds is configuration and may be read freely.
+    for m in methods:
+        for n in ast.walk(m):
+            if isinstance(n, ast.Attribute) and isinstance(n.ctx, ast.Load) and isinstance(n.value, ast.Name) and n.value.id == 'self' \
+                    and n.attr in reset and _placeholder(ctor[n.attr]) and not (top_reset.get(n.attr, set()) - {m.name}) \
+                    and not assigned_before(m.body, n.attr, n):
+                out.append(('carried', n.attr, n))
     for m in methods:
         for n in ast.walk(m):
             def own(e):
@@ -816,12 +839,18 @@ class Step:
         self.names = {}
         self.seen = []
         self.count = 0
+        self.parsed = None
+        self.fresh = None
     def process_datapackage(self, dp):
         self.resources = Matcher(self.resources, dp)
         self.names[dp.name] = 1
         self.seen = []
         self.seen.append(dp)
         self.count = 0
+        if self.parsed is None:
+            self.parsed = parse(dp)
+        self.fresh = parse(dp)
+        use(self.fresh)
         return dp
 '''
 
@@ -833,10 +862,19 @@ def r34_run_idempotence(ctx, include=None, rule='R34'):
                    'computed from its own previous value (self.x = f(self.x)). Otherwise a second run of the same Flow object - which is '
                    'how a checkpointed pipeline is run again - starts from what the first run left behind')
     ctl = [c for c in ast.parse(_R34_CONTROL).body if isinstance(c, ast.ClassDef)][0]
-    got = sorted((k, a) for k, a, _ in rerun_state(ctl))
-    if got != [('accumulates', 'names'), ('rebinds from itself', 'resources')]:
+    got = sorted(set((k, a) for k, a, _ in rerun_state(ctl)))
+    if got != [('accumulates', 'names'), ('carried', 'parsed'), ('rebinds from itself', 'resources')]:
         raise AnalysisError('R34 self-check failed: %s' % got)
     n = 0
+    per_run_helpers = set()
+    fl = ctx.repo.classes.get('dataflows.base.flow:Flow')
+    if fl is not None and fl.methods.get('_chain') is not None:
+        ch = fl.methods['_chain']
+        for c_ in ast.walk(ch.node):
+            if isinstance(c_, ast.Call) and isinstance(c_.func, ast.Call) and isinstance(c_.func.func, ast.Name):
+                for t in ctx.res._resolve_callee(c_.func.func, ch.module, ch):
+                    if hasattr(t, 'mro'):
+                        per_run_helpers.add(t.name)
     for c in sorted(ctx.repo.classes.values(), key=lambda c: c.qualname):
         if include is not None and not include(c):
             continue
@@ -844,6 +882,9 @@ def r34_run_idempotence(ctx, include=None, rule='R34'):
             continue
         bases = [b.node for b in c.mro[1:]]
         hits = rerun_state(c.node, bases)
+        if c.name in per_run_helpers:
+            # built anew by Flow._chain for every run (R34c decides that): nothing is carried from one run's object to the next's
+            hits = [h for h in hits if h[0] != 'carried']
         n += 1
         if not hits:
             run.ok(rule, c.where, c.qualname, 'no constructor-set state is accumulated into or rebound from itself by a run')
@@ -854,8 +895,8 @@ def r34_run_idempotence(ctx, include=None, rule='R34'):
             seen.add((kind, attr))
             run.fail(rule, where(ctx.repo, node), c.qualname, 'self.%s %s across runs' % (attr, kind),
                      'self.%s is set by the constructor and %s in %s: running the same Flow object again (e.g. to resume from a '
-                     'checkpoint) continues from the state the previous run left' % (attr, 'mutated in place' if kind == 'accumulates'
-                                                                                      else 'rebound to a value computed from itself', c.name))
+                     'checkpoint) continues from the state the previous run left' % (attr, {'accumulates': 'mutated in place',
+                                                                                            'carried': 'read by a run before that run has bound it (while runs rebind it)'}.get(kind, 'rebound to a value computed from itself'), c.name))
     return n
 
 
